@@ -60,29 +60,319 @@ theorem chooseParent_sameBest (sp : Space σ δ) (ms : Array (Motion σ α)) (nm
           · exact (checkMotion_sameBest _ _ _).trans (ih _ _)
         · exact ih _ _
 
-theorem rewireOne_sameBest (o : Obj σ α) (sp : Space σ δ) (new : Nat) (valid : List (Nat × Int)) (incs : List α)
-    (acc : St σ α δ × Bool) (p : Nat × Nat) : SameBest acc.1 (rewireOne o sp new valid incs acc p).1 := by
-  obtain ⟨s, chk⟩ := acc
-  obtain ⟨i, ni⟩ := p
-  unfold rewireOne
-  simp only []
+theorem rewireCheck_sameBest (sp : Space σ δ) (valid : List (Nat × Int)) (i : Nat) (s : St σ α δ) (mot nb : Motion σ α) :
+    SameBest s (rewireCheck sp valid i s mot nb).2 := by
+  unfold rewireCheck
   split
   · split
+    · exact checkMotion_sameBest _ _ _
     · exact ⟨rfl, rfl⟩
-    · split
-      · -- candidate for rewiring
-        split
-        · -- valid[i] = 0
-          split
-          · -- close enough: collision check
-            have h := checkMotion_sameBest s (‹Motion σ α›).state (‹Motion σ α›).state
-            split <;> first | exact ⟨rfl, rfl⟩ | skip
-            all_goals first
-              | exact checkMotion_sameBest _ _ _
-              | (exact ⟨(checkMotion_sameBest _ _ _).1, (checkMotion_sameBest _ _ _).2⟩)
-          · exact ⟨rfl, rfl⟩
-        · split <;> exact ⟨rfl, rfl⟩
-      · exact ⟨rfl, rfl⟩
   · exact ⟨rfl, rfl⟩
+
+theorem applyRewire_sameBest (o : Obj σ α) (s : St σ α δ) (new ni : Nat) (inc cost : α) :
+    SameBest s (applyRewire o s new ni inc cost) := ⟨rfl, rfl⟩
+
+theorem rewireStep_sameBest (o : Obj σ α) (sp : Space σ δ) (valid : List (Nat × Int)) (i new ni : Nat) (s : St σ α δ)
+    (mot nb : Motion σ α) (inc cost : α) (chk : Bool) :
+    SameBest s (match rewireCheck sp valid i s mot nb with
+      | (true, s1) => (applyRewire o s1 new ni inc cost, true)
+      | (false, s1) => (s1, chk)).1 := by
+  have hc := rewireCheck_sameBest sp valid i s mot nb
+  rcases h : rewireCheck sp valid i s mot nb with ⟨b, s1⟩
+  rw [h] at hc
+  cases b
+  · exact hc
+  · exact hc.trans (applyRewire_sameBest _ _ _ _ _ _)
+
+theorem rewireOne_sameBest (o : Obj σ α) (sp : Space σ δ) (new : Nat) (valid : List (Nat × Int)) (incs : List α)
+    (acc : St σ α δ × Bool) (p : Nat × Nat) : SameBest acc.1 (rewireOne o sp new valid incs acc p).1 := by
+  unfold rewireOne
+  split
+  · split
+    · exact SameBest.refl _
+    · split
+      · exact rewireStep_sameBest _ _ _ _ _ _ _ _ _ _ _ _
+      · exact SameBest.refl _
+  · exact SameBest.refl _
+
+theorem foldl_rewireOne_sameBest (o : Obj σ α) (sp : Space σ δ) (new : Nat) (valid : List (Nat × Int)) (incs : List α)
+    (l : List (Nat × Nat)) (acc : St σ α δ × Bool) :
+    SameBest acc.1 (l.foldl (rewireOne o sp new valid incs) acc).1 := by
+  induction l generalizing acc with
+  | nil => exact SameBest.refl _
+  | cons p rest ih =>
+    simp only [List.foldl_cons]
+    exact (rewireOne_sameBest o sp new valid incs acc p).trans (ih _)
+
+/-- the state after the insertion stage is the choose-parent loop's state with other `motions`/`tie`. -/
+theorem growInsert_st (o : Obj σ α) (sp : Space σ δ) (s : St σ α δ) (nmotion : Nat) (nm : Motion σ α) (dstate : σ) :
+    ∃ cands ms t, (growInsert o sp s nmotion nm dstate).st =
+      { (chooseParent sp s.motions nmotion dstate cands s []).2.2 with motions := ms, tie := t } := by
+  unfold growInsert
+  exact ⟨_, _, _, rfl⟩
+
+theorem growInsert_sameBest (o : Obj σ α) (sp : Space σ δ) (s : St σ α δ) (nmotion : Nat) (nm : Motion σ α) (dstate : σ) :
+    SameBest s (growInsert o sp s nmotion nm dstate).st := by
+  obtain ⟨cands, ms, t, h⟩ := growInsert_st o sp s nmotion nm dstate
+  rw [h]
+  exact ⟨(chooseParent_sameBest sp s.motions nmotion dstate cands s []).1,
+         (chooseParent_sameBest sp s.motions nmotion dstate cands s []).2⟩
+
+theorem grow_sameBest (o : Obj σ α) (sp : Space σ δ) (s : St σ α δ) (nmotion : Nat) (nm : Motion σ α) (dstate : σ) :
+    SameBest s (grow o sp s nmotion nm dstate).1 := by
+  unfold grow
+  simp only []
+  exact (growInsert_sameBest o sp s nmotion nm dstate).trans
+    (foldl_rewireOne_sameBest o sp (growInsert o sp s nmotion nm dstate).new (growInsert o sp s nmotion nm dstate).valid
+      (growInsert o sp s nmotion nm dstate).incs (growInsert o sp s nmotion nm dstate).nbhP
+      ((growInsert o sp s nmotion nm dstate).st, false))
+
+/-! ### the incumbent only improves -/
+
+theorem updateBest_loop_mono {o : Obj σ α} (h : IsSWO o.better) (s : St σ α δ) (gs : List Nat) :
+    o.better s.bestCost (updateBest.loop o s gs).bestCost = false := by
+  induction gs generalizing s with
+  | nil => exact h.irrefl _
+  | cons g rest ih =>
+    unfold updateBest.loop
+    split
+    · rename_i gm hgm
+      split
+      · rename_i hb
+        have h1 : o.better s.bestCost gm.cost = false := h.asymm _ _ hb
+        simp only []
+        split
+        · exact h1
+        · exact h.incomp_trans h1 (ih { s with bestGoal := some g, bestCost := gm.cost })
+      · exact ih _
+    · exact ih _
+
+theorem updateBest_loop_bestInv {o : Obj σ α} (s : St σ α δ) (gs : List Nat) (hs : BestInv o s) :
+    BestInv o (updateBest.loop o s gs) := by
+  induction gs generalizing s with
+  | nil => exact hs
+  | cons g rest ih =>
+    unfold updateBest.loop
+    split
+    · rename_i gm hgm
+      split
+      · simp only []
+        split
+        · intro hn; simp at hn
+        · exact ih { s with bestGoal := some g, bestCost := gm.cost } (fun hn => by simp at hn)
+      · exact ih _ hs
+    · exact ih _ hs
+
+theorem updateBest_mono {o : Obj σ α} (L : Laws o) (s : St σ α δ) (hs : BestInv o s) :
+    o.better s.bestCost (updateBest o s).bestCost = false := by
+  unfold updateBest
+  split
+  · rename_i g rest hb hg
+    split
+    · simp only []
+      rw [hs hb]
+      exact L.inf_worst _
+    · exact L.swo.irrefl _
+  · exact updateBest_loop_mono L.swo _ _
+
+theorem updateBest_bestInv {o : Obj σ α} (s : St σ α δ) (hs : BestInv o s) : BestInv o (updateBest o s) := by
+  unfold updateBest
+  split
+  · split
+    · intro hn; simp at hn
+    · exact hs
+  · exact updateBest_loop_bestInv _ _ hs
+
+theorem BestInv.of_sameBest {o : Obj σ α} {s s' : St σ α δ} (h : SameBest s s') (hs : BestInv o s) : BestInv o s' := by
+  intro hn
+  rw [h.1]
+  exact hs (h.2 ▸ hn)
+
+theorem goalStep_sameBest (sp : Space σ δ) (s : St σ α δ) (new : Nat) (chk : Bool) (dstate : σ) :
+    SameBest s (goalStep sp s new chk dstate).1 := by
+  unfold goalStep
+  split <;> exact ⟨rfl, rfl⟩
+
+theorem approxStep_sameBest (sp : Space σ δ) (s : St σ α δ) (new : Nat) (dstate : σ) :
+    SameBest s (approxStep sp s new dstate) := by
+  unfold approxStep
+  split <;> exact ⟨rfl, rfl⟩
+
+theorem bestStep_mono {o : Obj σ α} (L : Laws o) (p : St σ α δ × Bool) (hs : BestInv o p.1) :
+    o.better p.1.bestCost (bestStep o p).bestCost = false ∧ BestInv o (bestStep o p) := by
+  unfold bestStep
+  split
+  · exact ⟨updateBest_mono L _ hs, updateBest_bestInv _ hs⟩
+  · exact ⟨L.swo.irrefl _, hs⟩
+
+theorem finishIter_mono {o : Obj σ α} (L : Laws o) (sp : Space σ δ) (s : St σ α δ) (new : Nat) (chk : Bool) (dstate : σ)
+    (hs : BestInv o s) :
+    o.better s.bestCost (finishIter o sp s new chk dstate).bestCost = false ∧
+    BestInv o (finishIter o sp s new chk dstate) := by
+  unfold finishIter
+  have hg := goalStep_sameBest sp s new chk dstate
+  have hb := bestStep_mono L (goalStep sp s new chk dstate) (BestInv.of_sameBest hg hs)
+  have ha := approxStep_sameBest sp (bestStep o (goalStep sp s new chk dstate)) new dstate
+  refine ⟨?_, BestInv.of_sameBest ha hb.2⟩
+  rw [ha.1, ← hg.1]
+  exact hb.1
+
+theorem iterate_mono {o : Obj σ α} (L : Laws o) (sp : Space σ δ) (s : St σ α δ) (hs : BestInv o s) :
+    o.better s.bestCost (iterate o sp s).bestCost = false ∧ BestInv o (iterate o sp s) := by
+  have base : ∀ s' : St σ α δ, SameBest s s' →
+      o.better s.bestCost s'.bestCost = false ∧ BestInv o s' := by
+    intro s' h
+    exact ⟨by rw [h.1]; exact L.swo.irrefl _, BestInv.of_sameBest h hs⟩
+  unfold iterate
+  have h0 : SameBest s ({ s with iterations := s.iterations + 1, queries := [] } : St σ α δ) := ⟨rfl, rfl⟩
+  have h1 := drawSample_sameBest sp ({ s with iterations := s.iterations + 1, queries := [] } : St σ α δ)
+  simp only []
+  split
+  · rename_i s1 hd
+    rw [hd] at h1
+    exact base _ (h0.trans h1)
+  · rename_i rstate s1 hd
+    rw [hd] at h1
+    have h01 := h0.trans h1
+    split
+    · exact base _ h01
+    · rename_i nmotion hn
+      split
+      · exact base _ h01
+      · rename_i nm hnm
+        have h2 := checkMotion_sameBest s1 nm.state (steerTo sp nm rstate)
+        split
+        · rename_i s2 hc
+          rw [hc] at h2
+          exact base _ (h01.trans h2)
+        · rename_i s2 hc
+          rw [hc] at h2
+          have hall := (h01.trans h2).trans (grow_sameBest o sp s2 nmotion nm (steerTo sp nm rstate))
+          have hf := finishIter_mono L sp (grow o sp s2 nmotion nm (steerTo sp nm rstate)).1
+            (grow o sp s2 nmotion nm (steerTo sp nm rstate)).2.1 (grow o sp s2 nmotion nm (steerTo sp nm rstate)).2.2
+            (steerTo sp nm rstate) (BestInv.of_sameBest hall hs)
+          rw [hall.1] at hf
+          exact hf
+
+theorem applyOp_mono {o : Obj σ α} (L : Laws o) (sp : Space σ δ) (s : St σ α δ) (op : Op σ δ) (hs : BestInv o s) :
+    o.better s.bestCost (applyOp o sp s op).bestCost = false ∧ BestInv o (applyOp o sp s op) := by
+  cases op with
+  | start x => exact ⟨L.swo.irrefl _, hs⟩
+  | feed us xs as => exact ⟨L.swo.irrefl _, hs⟩
+  | beginSolve => exact ⟨L.swo.irrefl _, hs⟩
+  | iter => exact iterate_mono L sp s hs
+
+theorem run_mono {o : Obj σ α} (L : Laws o) (sp : Space σ δ) (s : St σ α δ) (ops : List (Op σ δ)) (hs : BestInv o s) :
+    o.better s.bestCost (run o sp s ops).bestCost = false ∧ BestInv o (run o sp s ops) := by
+  induction ops generalizing s with
+  | nil => exact ⟨L.swo.irrefl _, hs⟩
+  | cons op rest ih =>
+    have h1 := applyOp_mono L sp s op hs
+    have h2 := ih (applyOp o sp s op) h1.2
+    exact ⟨L.swo.incomp_trans h1.1 h2.1, h2.2⟩
+
+theorem init_bestInv (o : Obj σ α) (sp : Space σ δ) : BestInv o (St.init o sp : St σ α δ) := fun _ => rfl
+
+/-! ### what `solve()` reports -/
+
+theorem report_spec {o : Obj σ α} {s : St σ α δ} {r : Report σ α δ} (h : report o s = some r) :
+    r.optimized = o.isSatisfied s.bestCost ∧ r.approximate = s.bestGoal.isNone ∧
+    ∃ n nm, (match s.bestGoal with | some g => some g | none => s.approxGoal) = some n ∧
+      s.motions[n]? = some nm ∧ r.storedCost = nm.cost ∧
+      r.pathIdx = (chainUp s.motions s.motions.size n).reverse := by
+  unfold report at h
+  simp only [] at h
+  split at h
+  · simp at h
+  · rename_i n hn
+    split at h
+    · simp at h
+    · rename_i nm hnm
+      simp only [Option.some.injEq] at h
+      subst h
+      exact ⟨rfl, rfl, n, nm, hn, hnm, rfl, rfl⟩
+
+/-! ### why rewiring never closes a cycle: an ancestor's cost is never beaten through a descendant -/
+
+/-- `Desc o a c`: the cost `c` is the cost `a` extended by finitely many motion costs — what the cost
+invariant says of the cost of a descendant (`c`) of a motion with cost `a`. -/
+inductive Desc (o : Obj σ α) : α → α → Prop where
+  | refl (c : α) : Desc o c c
+  | step {a c : α} (x y : σ) : Desc o a c → Desc o a (o.combine c (o.motionCost x y))
+
+/-- an ancestor's cost is never beaten by a descendant's cost extended by one more motion: the strict
+`isCostBetterThan(nbhNewCost, nbh[i]->cost)` test of the rewiring loop therefore never re-parents an
+ancestor of the new motion under it (which is the only way the rewiring could close a cycle). -/
+theorem ancestor_not_beaten {o : Obj σ α} (L : Laws o) {a c : α} (h : Desc o a c) :
+    ∀ x y : σ, o.better (o.combine c (o.motionCost x y)) a = false := by
+  induction h with
+  | refl => intro x y; exact L.nonneg _ x y
+  | step u v _ ih =>
+    intro x y
+    exact L.swo.incomp_trans (L.nonneg _ x y) (ih u v)
+
+/-! ### the stored cost is the cost of the reported path -/
+
+/-- the cost invariant at motion `i`: a start has the identity cost; any other motion's `incCost` is the
+motion cost from its parent's state and its `cost` is the parent's cost combined with it. -/
+def CostOK (o : Obj σ α) (ms : Array (Motion σ α)) (i : Nat) : Prop :=
+  ∀ m, ms[i]? = some m →
+    match m.parent with
+    | none => m.cost = o.identity
+    | some p => ∃ pm, ms[p]? = some pm ∧ m.incCost = o.motionCost pm.state m.state ∧
+        m.cost = o.combine pm.cost m.incCost
+
+/-- `chainUp` reached a start before its fuel ran out. -/
+def Complete (ms : Array (Motion σ α)) : Nat → Nat → Prop
+  | 0, _ => False
+  | fuel + 1, i =>
+    match ms[i]? with
+    | none => False
+    | some m =>
+      match m.parent with
+      | none => True
+      | some p => Complete ms fuel p
+
+def statesOf (ms : Array (Motion σ α)) (idx : List Nat) : List σ :=
+  idx.filterMap (fun i => ms[i]?.map (·.state))
+
+def algOf (o : Obj σ α) : OmplModel.Soln.CostAlg α := ⟨o.identity, o.combine, o.better⟩
+
+theorem chain_cost (o : Obj σ α) (ms : Array (Motion σ α)) (hinv : ∀ j, CostOK o ms j) :
+    ∀ fuel i m, ms[i]? = some m → Complete ms fuel i →
+      ∃ l, statesOf ms (chainUp ms fuel i).reverse = l ++ [m.state] ∧
+        m.cost = OmplModel.Soln.costLoop (algOf o) o.motionCost o.identity (l ++ [m.state]) := by
+  intro fuel
+  induction fuel with
+  | zero => intro i m _ hc; exact absurd hc (by simp [Complete])
+  | succ f ih =>
+    intro i m hm hc
+    have hinv_i := hinv i m hm
+    unfold Complete at hc
+    rw [hm] at hc
+    simp only [] at hc
+    unfold chainUp
+    rw [hm]
+    simp only []
+    cases hp : m.parent with
+    | none =>
+      rw [hp] at hinv_i
+      simp only [] at hinv_i
+      refine ⟨[], ?_, ?_⟩
+      · simp [statesOf, hm]
+      · simp [OmplModel.Soln.costLoop, hinv_i]
+    | some p =>
+      rw [hp] at hinv_i hc
+      simp only [] at hinv_i hc
+      obtain ⟨pm, hpm, hinc, hcost⟩ := hinv_i
+      obtain ⟨l, hl, hpc⟩ := ih p pm hpm hc
+      refine ⟨l ++ [pm.state], ?_, ?_⟩
+      · simp only [List.reverse_cons, statesOf, List.filterMap_append] at hl ⊢
+        rw [hl]
+        simp [hm]
+      · have := OmplModel.Soln.costLoop_snoc (algOf o) o.motionCost o.identity l pm.state m.state
+        simp only [List.append_assoc, List.cons_append, List.nil_append] at this ⊢
+        rw [this, ← hpc, hcost, hinc]
+        rfl
 
 end OmplModel.RRTstar
